@@ -413,6 +413,7 @@ func runCases(o *hx.Opts, w *lineio.Writer) error {
 		ins = append(ins, s.systematic(r)...)
 		ins = append(ins, s.lenBoundary()...)
 		ins = append(ins, s.excluded(o.Rand(13))...)
+		ins = append(ins, s.rawCases(o.Rand(15))...)
 		ins = append(ins, s.random(o.Rand(14), o.N(12000, 300000))...)
 		for i, in := range ins {
 			ids = append(ids, fmt.Sprintf("%s-%d", in.Stream, i))
@@ -450,6 +451,15 @@ func runCases(o *hx.Opts, w *lineio.Writer) error {
 			}
 			var out res
 			for i, in := range part {
+				if in.Stream == "raw" {
+					ro, err := s.execRaw(in)
+					if err != nil {
+						out.err = fmt.Errorf("case %s: %v", ids[lo+i], err)
+						break
+					}
+					out.lines = append(out.lines, &lineio.Case{ID: ids[lo+i], In: in, Obs: ro})
+					continue
+				}
 				obs, err := s.execCase(in, lean[i], leanErrs[i])
 				if err != nil {
 					out.err = fmt.Errorf("case %s: %v", ids[lo+i], err)
